@@ -1,9 +1,12 @@
 #!/bin/sh
-# usage: tools/seedrun.sh <Cxx> <worktree> <patch> [tier]  — applies a seeded change in a scratch worktree and runs the check against it
-P=$1; WT=$2; PATCH=$3; TIER=${4:-quick}
-git -C "$WT" checkout -q -- . && git -C "$WT" apply "$PATCH" || exit 3
+# usage: tools/seedrun.sh <Cxx> <patch> [tier]
+# applies a seeded change to a fresh scratch worktree of /repo's HEAD and runs the check against it (VERIF_REPO)
+P=$1; PATCH=$2; TIER=${3:-quick}
+WT=$(mktemp -d /tmp/seedwt-$P.XXXXXX); rmdir "$WT"
+git -C /repo worktree add -q --detach "$WT" HEAD || exit 3
+if ! git -C "$WT" apply "$PATCH"; then git -C /repo worktree remove --force "$WT"; echo "seedrun $P: patch does not apply"; exit 3; fi
 VERIF_REPO="$WT" python3 tools/check.py run "$P" --tier "$TIER"
 rc=$?
-git -C "$WT" checkout -q -- .
+git -C /repo worktree remove --force "$WT"
 echo "seedrun $P rc=$rc"
 exit $rc
